@@ -5,6 +5,7 @@ package pa
 import (
 	"fmt"
 	"os"
+	"reflect"
 	"strconv"
 	"strings"
 	"testing"
@@ -365,13 +366,68 @@ func runHist(steps []string) string {
 	return "r=" + strings.Join(res, ",") + " hit=" + strings.Join(hits, ",") + " after=" + clean
 }
 
+// runGuards executes a `c06.guard` history on the patch package directly: guards are created (patch.InstanceMethod) and
+// applied / unpatched later.
+func runGuards(steps []string) string {
+	if hits := snapshot(); len(hits) != 0 {
+		patch.UnpatchAll()
+		return "before=dirty:" + hits[0]
+	}
+	guards := map[string]*patch.Guard{}
+	var res []string
+	for k, tok := range steps {
+		f := strings.Split(tok, "~")
+		switch {
+		case f[0] == "GN" && len(f) == 7:
+			eid, err := strconv.Atoi(f[6])
+			if err != nil || eid < 0 || eid >= len(registry) || registry[eid].Tmpl == nil {
+				return "bad-op"
+			}
+			e := &registry[eid]
+			if e.Pkg != f[2] || e.T != f[3] || e.Ptr != (f[4] == "1") {
+				return "err:inconsistent-op"
+			}
+			res = append(res, try(func() {
+				g, err := patch.InstanceMethod(reflect.TypeOf(e.Tmpl("z")), f[5], e.Cb("SM", k))
+				if err != nil {
+					panic("proxy method error: " + err.Error())
+				}
+				guards[f[1]] = g
+			}))
+		case (f[0] == "GA" || f[0] == "GU") && len(f) == 2:
+			g, ok := guards[f[1]]
+			if !ok {
+				res = append(res, "err:nohandle")
+				break
+			}
+			if f[0] == "GA" {
+				res = append(res, try(g.Apply))
+			} else {
+				res = append(res, try(g.UnpatchWithLock))
+			}
+		default:
+			return "bad-op"
+		}
+	}
+	hits := snapshot()
+	for _, g := range guards {
+		try(g.UnpatchWithLock)
+	}
+	clean := "clean"
+	if after := snapshot(); len(after) != 0 {
+		clean = "dirty"
+	}
+	patch.UnpatchAll() // also empties the package's patch table
+	return "r=" + strings.Join(res, ",") + " hit=" + strings.Join(hits, ",") + " after=" + clean
+}
+
 // TestVerifC06 runs goom's real method mocking on the operation stream.
 func TestVerifC06(t *testing.T) {
 	out := vh.OpenOut()
 	defer out.Close()
 	from, _ := strconv.Atoi(os.Getenv("VERIF_C06_FROM"))
 	for _, op := range vh.ReadOps() {
-		if op.Idx < from || len(op.Toks) == 0 || op.Toks[0] != "c06.hist" {
+		if op.Idx < from || len(op.Toks) == 0 || (op.Toks[0] != "c06.hist" && op.Toks[0] != "c06.guard") {
 			continue
 		}
 		var steps []string
@@ -381,6 +437,10 @@ func TestVerifC06(t *testing.T) {
 			}
 			steps = append(steps, strings.ReplaceAll(tk, "@", wireBase))
 		}
-		out.Put(op.Idx, "%s", runHist(steps))
+		if op.Toks[0] == "c06.guard" {
+			out.Put(op.Idx, "%s", runGuards(steps))
+		} else {
+			out.Put(op.Idx, "%s", runHist(steps))
+		}
 	}
 }
